@@ -151,6 +151,10 @@ pub fn run(tier: Tier) -> i32 {
     for (n, s) in crate::pool::base_sources().into_iter().filter(|(n, _)| ["lines", "choices", "externs"].contains(n)) {
         set.push(ProgSrc::SourceV20(format!("{n}-v20"), s.to_string()));
     }
+    // a warning raised while the global declarations run, at construction and at reset alike
+    // (judged without a handler only: a handler can be installed after construction at the
+    // earliest, so with one the two stories hear of it at different moments by design)
+    set.push(ProgSrc::Source("decl-warning".into(), "VAR g = nope\nStart {g}.\nSecond.\n* pick\n    Picked {g}.\n- -> END\n".into()));
     let ctl = RunCtl::new(secs);
     let spec = PairSpec {
         id: ID,
@@ -167,6 +171,9 @@ pub fn run(tier: Tier) -> i32 {
     let (stats, done) = par_cases(set.len(), &ctl, |i, st| {
         if let Some(p) = set[i].load() {
             for handler in [false, true] {
+                if handler && p.name == "decl-warning" {
+                    continue;
+                }
                 let mut su = super::c09::setup_for(&p);
                 su.handler = handler;
                 run_pairs(&p, &su, &spec, st);
